@@ -242,6 +242,30 @@ def _split_cases(tier):
                             yield ['split_merge', list(qd0), list(qd1), list(qD0), list(qD2), vk]
 
 
+def _history_probe(w, ctx):
+    # dense conversions are evaluated on the LIVE objects of the world (they are documented as pure), so that anything a conversion
+    # leaves behind on the object is carried into the following operations of the history
+    for name, obj in (('H', w.H), ('K', w.K)):
+        ref = mat(obj)
+        ctx.close(np.asarray(obj.as_matrix()), ref, f'history:{name}.as_matrix_dense')
+        ctx.close(obj.as_matrix(sparse_format=True).toarray(), ref, f'history:{name}.dense_and_sparse_matrix_forms_equal')
+        ctx.calls += 2
+    for name, obj in (('psi', w.psi), ('phi', w.phi)):
+        ctx.close(np.asarray(obj.as_vector()), vec(obj), f'history:{name}.as_vector_dense')
+        ctx.calls += 1
+    if np.array_equal(w.H.qd, w.psi.qd) and max(w.psi.bond_dims) * max(w.H.bond_dims) <= 64:
+        r = apply_operator(w.H, w.psi)
+        ctx.close(vec(r), mat(w.H) @ vec(w.psi), 'history:operator_application_dense')
+        ctx.calls += 1
+
+
+def replay_case(space, case, seed):
+    if space.name == 'history_states':
+        from props import hist_probe
+        return hist_probe.replay(space, case, seed)
+    return space.run_one(case, seed).fails
+
+
 def sig(case):
     return case[0]
 
@@ -255,7 +279,10 @@ def spaces(tier, seed):
         Ls, Ds = [1, 2, 3], [1, 2, 3]
         Lmpo = [1, 2]
         qds_mpo = [[0, 1], [1, -1], [0, 0]]
+    from props import hist_probe
+    hist = hist_probe.probe_space('history_states', ['xxz3', 'ising3', 'fh2', 'linf3'], 2 if tier == 'quick' else 3, _history_probe)
     return [
+        hist,
         Space('mps_pairs', core.chunked(_mps_pair_cases(Ls, QDS, Ds), 400), run_case=run_case, sig=sig,
               bounds={'L': Ls, 'qd': QDS, 'D': Ds, 'dtypes': DTYPES, 'ops': ['+', '-']}),
         Space('mpo_pairs', core.chunked(_mpo_pair_cases(Lmpo, qds_mpo, [1, 2]), 200), run_case=run_case, sig=sig,
